@@ -367,14 +367,31 @@ pub fn edwards_encoding() -> BoxedStrategy<(u8, B32)> {
         1 => (0usize..3, any::<bool>()).prop_map(|(w, s)| { let y = [Fp::ONE, Fp::ONE.neg(), Fp::ZERO][w]; let mut b = y.to_bytes(); if s { b[31] |= 0x80; } (4u8, b) }),
         // valid point with sign bit flipped (x=0 cases included through torsion)
         1 => edwards_point().prop_map(|(_, mut e)| { e[31] ^= 0x80; (5u8, e) }),
+        // near-misses of the torsion encodings and of the basepoint (ordinary points or invalid strings)
+        1 => (0usize..9, 0u8..3, 0usize..256).prop_map(|(t, kind, pos)| { let b = if t < 8 { torsion()[t].compress() } else { Aff::basepoint().compress() }; (2u8, near_miss(b, kind, pos)) }),
         // off-curve: valid y + 1 .. until off curve
         1 => edwards_point().prop_map(|(_, e)| { let mut y = Fp::from_bytes(&e); loop { y = y.add(&Fp::ONE); let b = y.to_bytes(); if Aff::decompress(&b).is_none() { return (6u8, b); } } }),
     ].boxed()
 }
 
 /// Montgomery u-coordinates by class
+/// a near-miss of a special 32-byte constant: one bit flipped, two adjacent bytes transposed, or the two
+/// nibbles of one byte swapped - the typos a hand-copied table of special encodings contains (seeded change
+/// C07g: one entry of a small-order table mistyped, which turns ONE ordinary key into a "low-order" one)
+pub fn near_miss(b: B32, kind: u8, pos: usize) -> B32 {
+    let mut c = b;
+    match kind % 3 {
+        0 => c[(pos / 8) % 32] ^= 1 << (pos % 8),
+        1 => c.swap(pos % 31, pos % 31 + 1),
+        _ => { let i = pos % 32; c[i] = c[i].rotate_left(4); }
+    }
+    c
+}
+
 pub fn montgomery_u() -> BoxedStrategy<(u8, B32)> {
     prop_oneof![
+        // near-misses of the small-order u-coordinates (must behave like ordinary points)
+        2 => (0usize..8, 0u8..3, 0usize..256).prop_map(|(t, kind, pos)| (4u8, near_miss(torsion()[t].to_montgomery_u().to_bytes(), kind, pos))),
         2 => (0u64..3, any::<bool>()).prop_map(|(k, hi)| { let v = [Fp::ZERO, Fp::ONE, Fp::ONE.neg()][k as usize]; let mut b = v.to_bytes(); if hi { b[31] |= 0x80; } (0u8, b) }),
         // non-canonical: p + k for k < 19
         2 => (0u64..19, any::<bool>()).prop_map(|(k, hi)| { let mut b = fp::p().wrapping_add(&U256::from_u64(k)).to_le(); if hi { b[31] |= 0x80; } (1u8, b) }),
